@@ -41,7 +41,7 @@ pub fn defined_second(b: u8) -> bool {
 }
 
 /// Run one instruction on the real machine from a forced boundary; observe the micro-sequencer.
-fn observe(out: &mut Out, rng: &mut Rng, op: u8, b2: Option<u8>) {
+fn observe(out: &mut Out, rng: &mut Rng, op: u8, b2: Option<u8>, fixed: Option<[u8; 3]>) {
     let mut s = Sess::new();
     let mut prog = vec![op];
     // operand bytes: for prefixes the constant/address byte (if any) then the second opcode
@@ -61,7 +61,12 @@ fn observe(out: &mut Out, rng: &mut Rng, op: u8, b2: Option<u8>) {
     run_line(out, &mut s, "new");
     run_line(out, &mut s, &format!("load 0 255 {}", hexs(&prog)));
     // adversarial registers/flags: random R0-R2, flags, SP somewhere harmless, pending interrupt
-    let regs = [rng.byte() % 0xE0, rng.byte() % 0xE0, rng.byte() % 0xE0, 0, rng.byte(), 0x80 + rng.byte() % 0x20, rng.byte(), rng.byte()];
+    let mut regs = [rng.byte() % 0xE0, rng.byte() % 0xE0, rng.byte() % 0xE0, 0, rng.byte(), 0x80 + rng.byte() % 0x20, rng.byte(), rng.byte()];
+    if let Some(f) = fixed {
+        regs[0] = f[0];
+        regs[1] = f[1];
+        regs[2] = f[2];
+    }
     let pend = rng.chance(1, 2);
     run_line(out, &mut s, "busw 249 1");
     run_line(out, &mut s, &format!("force 0 2 {} - 0 0 0 0 0 0 0 R 0", hexs(&regs)));
@@ -136,11 +141,24 @@ pub fn run(out: &mut Out, seed: u64, thorough: bool) {
             if op >= 0xF0 {
                 for b in 0..=255u8 {
                     if defined_second(b) || rng.chance(1, 8) {
-                        observe(out, &mut rng, op, Some(b));
+                        observe(out, &mut rng, op, Some(b), None);
                     }
                 }
             } else {
-                observe(out, &mut rng, op, None);
+                observe(out, &mut rng, op, None, None);
+            }
+        }
+    }
+    // 3. the data-driven loops: MUL and DIV with boundary operands in every register (zero divisor,
+    //    zero / one / maximal factors), all 32 opcodes
+    let vals: &[u8] = if thorough { &[0, 1, 2, 3, 0x7F, 0x80, 0xFE, 0xFF] } else { &[0, 1, 2, 0x80, 0xFF] };
+    for op in 0xB0..=0xCFu8 {
+        for &a in vals {
+            for &b in vals {
+                for &c in vals {
+                    observe(out, &mut rng, op, None, Some([a, b, c]));
+                    out.count("muldiv-boundary");
+                }
             }
         }
     }
